@@ -171,6 +171,12 @@ def check_cases(ctx, cases, rep, tag="case"):
             fin = np.isfinite(l)
             if not np.all(np.isfinite(x)) or not np.all((l[fin] < x[fin]) & (x[fin] < u[fin])):
                 rep.violation("x0_strictly_inside", SITE, f"{tag}: start point not strictly inside finite hard bounds: {norm}; {desc}", case)
+            # the INTERNAL problem the run will work on: finite-or-infinite (never NaN) bounds in the same order, a finite start point
+            il, iu, ipl, ipu, iu0 = (np.array(a, dtype=float) for a in norm["int"])
+            if np.any(np.isnan(il)) or np.any(np.isnan(iu)) or not np.all(np.isfinite(ipl)) or not np.all(np.isfinite(ipu)) or not np.all(np.isfinite(iu0)) \
+                    or not np.all((il <= ipl) & (ipl < ipu) & (ipu <= iu)) or not np.all((il <= iu0) & (iu0 <= iu)):
+                rep.violation("internal_problem_wellformed", "bads.py:__init__ / variables_transformer.py", f"{tag}: accepted definition yields a malformed internal problem "
+                              f"(lb, ub, plb, pub, u0) = {norm['int']}; {desc}", case)
         # ---- correspondence with the model --------------------------------------------------------------------
         if ("ok" in m) != (out == "ok"):
             if not (out not in ("ok", "ValueError")):
